@@ -59,8 +59,9 @@ DeflRules(c, e) ==
         "defl_after_stream_end")
   \o If(misuse /\ e.out_len > 0 /\ ~c.err => IsErr(e.status) /\ e.written = 0 /\ e.consumed = 0,
         "defl_nonfinish_after_finish_is_error")
-  \o If(e.status = "StreamEnd" /\ ~c.ended => e.flush = "Finish" /\ e.consumed = e.in_len,
-        "defl_stream_end_only_after_finish")
+  \* (input offered after the stream was already finished by an earlier Finish call with
+  \* no input left is not consumed; the property does not speak about it)
+  \o If(e.status = "StreamEnd" /\ ~c.ended => e.flush = "Finish", "defl_stream_end_only_after_finish")
   \o If(usable /\ e.flush = "Finish" /\ e.status # "StreamEnd" =>
           e.status = "Ok" /\ e.written = e.out_len,
         "defl_finish_works_until_end_or_output_full")
